@@ -3,6 +3,7 @@ package evsim
 import (
 	"bytes"
 	"fmt"
+	ethcrypto "github.com/ethereum/go-ethereum/crypto"
 	"math/big"
 	"strconv"
 	"strings"
@@ -405,7 +406,10 @@ func oracleC15(w *World, rec *BlockRecord, t *TxInfo) {
 			// deleted: must have been deletable
 			hadCode := len(vb.CodeHash[a]) > 0
 			empty := b.Seq == 0 && len(vb.Storage[a]) == 0 && !hadCode && len(nonZero(vb.Bal[a])) == 0
-			if !hadCode && !empty {
+			// a code-less account at the address this very tx creates a contract at may be destroyed by that contract's
+			// constructor (created and self-destructed within the tx): it did self-destruct
+			createdHere := t.EthTx != nil && t.EthTx.To() == nil && ethcrypto.CreateAddress(t.From, t.EthTx.Nonce()) == a
+			if !hadCode && !empty && !createdHere {
 				r.Violate("C15", "non_empty_account_deleted", nil, "account %s (nonce %d, %d storage keys, balances %v) deleted without self-destruct", a.Hex(), b.Seq, len(vb.Storage[a]), nonZero(vb.Bal[a]))
 			}
 			r.Probe("account_deleted", true)
